@@ -33,7 +33,7 @@ def bounds(tier):
 
 
 def instances(tier):
-    return apicmd.instances(tier)
+    return apicmd.instances(tier) + apicmd.sequence_instances(tier)
 
 
 def expect_labels(tier):
@@ -62,6 +62,11 @@ def _within_half_step_clamped(k, j, lo, hi, scale, D=20):
 
 
 def run(ctx, p):
+    if p.get("kind") == "call_sequence":
+        apicmd.run_sequence(ctx, p, "meaning")
+        for lab in expect_labels("quick"):
+            ctx.reach(lab)
+        return
     out = apicmd.scenario(ctx, p)
     env = out["env"]
     args = env["args"]
